@@ -51,14 +51,39 @@ def reader_filter(op: str, path: str, phase: tuple) -> bool:
     return False
 
 
+def fault_injector(kind: str):
+    """A writer whose commit hits a storage fault: 'hint_write' (before the pointer flip: a clean failed commit) or
+    'marker_delete' (an I/O error on the FIRST marker deletion after the flip: must be swallowed, the commit succeeded)."""
+    fired = {"n": 0}
+
+    def inject(op: str, path: str, idx: int, phase: tuple):
+        pcs = P.path_class(path)
+        if fired["n"]:
+            return None
+        if kind == "hint_write" and op == "write_file" and pcs == "hint" and "MetadataManager.commit" in phase:
+            fired["n"] = 1
+            return ("before", OSError(5, "injected I/O error on the pointer write"))
+        if kind == "marker_delete" and op == "delete_file" and pcs == "marker" and "Transaction._finish_committed" in phase:
+            fired["n"] = 1
+            return ("before", OSError(5, "injected I/O error on marker cleanup"))
+        return None
+    return inject
+
+
 WRITER_SETS = [
     [{"kind": "append", "rows": [{"x": 100}]}],
     [{"kind": "multi_append", "batches": [[{"x": 100}], [{"x": 101}], [{"x": 102}]]}],
     [{"kind": "append", "rows": [{"x": 100}]}, {"kind": "rollback_txn", "rows": [{"x": 555}]}],
     [{"kind": "append", "rows": [{"x": 100}]}, {"kind": "delete_snapshot", "which": "current"}],
+    [{"kind": "multi_append", "batches": [[{"x": 100}], [{"x": 101}]], "fault": "marker_delete"}],
+    [{"kind": "append", "rows": [{"x": 100}], "fault": "hint_write"}, {"kind": "append", "rows": [{"x": 200}]}],
     [{"kind": "multi_append", "batches": [[{"x": 100}], [{"x": 101}]]}, {"kind": "append", "rows": [{"x": 200}]},
      {"kind": "delete_snapshot", "which": "old"}],
 ]
+
+
+def injectors(case: Dict[str, Any]) -> Dict[str, Any]:
+    return {f"A{i}": fault_injector(op["fault"]) for i, op in enumerate(case["ops"]) if op.get("fault")}
 
 
 def analyse(case: Dict[str, Any], res: P.CaseResult, readers: List[int]) -> Tuple[List[str], List[Dict[str, Any]]]:
@@ -86,6 +111,11 @@ def analyse(case: Dict[str, Any], res: P.CaseResult, readers: List[int]) -> Tupl
             st["cur"]["result"] = e["result"]
             st["calls"].append(st["cur"])
             st["cur"] = None
+    for i, op in enumerate(case["ops"]):
+        if op.get("fault") == "marker_delete":
+            out = res.outcomes.get(f"A{i}")
+            if out is not None and out[0] != "ok":
+                viol.append(f"writer A{i}: an I/O error during marker cleanup AFTER the commit point made commit() raise: {out[1]}")
     for i in readers:
         name = f"A{i}"
         out = res.outcomes.get(name)
@@ -136,20 +166,22 @@ def run(ctx) -> None:
     total = 0
     bad_all: List[Dict[str, Any]] = []
     api_seen: Dict[str, int] = {}
-    for wi, writers in enumerate(WRITER_SETS if not quick else WRITER_SETS[:4]):
+    for wi, writers in enumerate(WRITER_SETS if not quick else WRITER_SETS[:6]):
         for ai, api in enumerate(APIS):
             if quick and (wi + ai) % 2 == 1:
                 continue
             reader_ops = [{"kind": "read", "apis": [api, APIS[(ai + 1) % len(APIS)]]}]
             ops = writers + reader_ops
-            case = {"ops": ops, "clock": "tick", "topology": "separate", "yield_filter": reader_filter, "track_states": True}
+            case = {"ops": ops, "clock": "tick", "topology": "separate", "yield_filter": reader_filter, "track_states": True,
+                    "injectors": {i: (lambda k=op["fault"]: fault_injector(k)) for i, op in enumerate(ops) if op.get("fault")}}
             readers = [len(writers)]
             runs = []
             for dev, res in c01.explore(ctx, case, 2, 14 if quick else 150):
                 runs.append((dev, res))
             for k in range(3 if quick else 25):
                 seed = ctx.rng.randrange(1 << 30)
-                res = P.run_case(ctx.scratch, c01._fix_case(case), lambda sc, seed=seed: S.random_chooser(_r.Random(seed), 0.45), tag="c02r")
+                res = P.run_case(ctx.scratch, c01._fix_case(case), lambda sc, seed=seed: S.random_chooser(_r.Random(seed), 0.45), tag="c02r",
+                                 inject=injectors(case) or None)
                 runs.append(([("random", seed)], res))
             for dev, res in runs:
                 total += 1
@@ -189,9 +221,11 @@ def replay(ctx, payload) -> int:
     case["yield_filter"] = reader_filter
     dev = c.get("deviations", [])
     if dev and dev[0][0] == "random":
-        res = P.run_case(ctx.scratch, c01._fix_case(case), lambda sc: S.random_chooser(_r.Random(dev[0][1]), 0.45), tag="replay")
+        res = P.run_case(ctx.scratch, c01._fix_case(case), lambda sc: S.random_chooser(_r.Random(dev[0][1]), 0.45), tag="replay",
+                         inject=injectors(case) or None)
     else:
-        res = P.run_case(ctx.scratch, c01._fix_case(case), c01.dev_chooser({int(i): a for i, a in dev}), tag="replay")
+        res = P.run_case(ctx.scratch, c01._fix_case(case), c01.dev_chooser({int(i): a for i, a in dev}), tag="replay",
+                         inject=injectors(case) or None)
     readers = [i for i, o in enumerate(case["ops"]) if o["kind"] == "read"]
     viol, _ = analyse(case, res, readers)
     print("replay:", "STILL FAILS: " + viol[0] if viol else "passes now")
